@@ -25,9 +25,9 @@ type c10Case struct {
 func init() {
 	engine.Register(&engine.Check{
 		ID: "C10", Level: "exploration",
-		Rule: "(a) every ordered triple of points of the 5x5 (quick) / 7x7 (thorough) integer grid, also scaled by 2^330 and 2^-330 and translated by 2^40; (b) for each of 24 exactly collinear base triples with non-trivial mantissas (slopes 1, 1/3, 7/5, -2/9, magnitudes 1e-100..1e100) every perturbation of the six ordinates by {-2..2} (quick) / {-3..3} (thorough) ulps; (c) every triple over the 27-bit coordinate set {0,1,2^26,2^27-1,2^27-3}^2; extra ordinates NaN/Inf; oracle = sign of the exact rational cross product for bigxy.OrientationIndex and xy.OrientationIndex, plus antisymmetry and cyclic invariance. distinct_nontrivial = distinct triples whose exact determinant is non-zero or whose points are pairwise distinct",
-		Run:    c10Run,
-		Replay: func(c *engine.Ctx, kind string, raw json.RawMessage) { c10Exec(c, decodeCase[c10Case](raw)) },
+		Rule:        "(a) every ordered triple of points of the 5x5 (quick) / 7x7 (thorough) integer grid, also scaled by 2^330 and 2^-330 and translated by 2^40; (b) for each of 24 exactly collinear base triples with non-trivial mantissas (slopes 1, 1/3, 7/5, -2/9, magnitudes 1e-100..1e100) every perturbation of the six ordinates by {-2..2} (quick) / {-3..3} (thorough) ulps; (c) every triple over the 27-bit coordinate set {0,1,2^26,2^27-1,2^27-3}^2; extra ordinates NaN/Inf; oracle = sign of the exact rational cross product for bigxy.OrientationIndex and xy.OrientationIndex, plus antisymmetry and cyclic invariance. distinct_nontrivial = distinct triples whose exact determinant is non-zero or whose points are pairwise distinct",
+		Run:         c10Run,
+		Replay:      func(c *engine.Ctx, kind string, raw json.RawMessage) { c10Exec(c, decodeCase[c10Case](raw)) },
 		Assumptions: []string{"math/big rationals are exact; ordinates are zero or of magnitude within [1e-100,1e100]"},
 	})
 }
@@ -133,15 +133,16 @@ func collinearBases() [][6]float64 {
 	return out
 }
 
-// cfSequences: Fibonacci and Pell numbers below 2^26 (ratios of neighbours are the slowest
-// converging continued fractions).
+// cfSequences: Fibonacci and Pell numbers below 2^51 (ratios of neighbours are the slowest
+// converging continued fractions; beyond 2^26 the products of the cross product no longer fit
+// in a float64, although every ordinate and every difference is an exact integer).
 func cfSequences() [][]float64 {
 	fib := []float64{1, 1}
-	for fib[len(fib)-1] < 1<<26 {
+	for fib[len(fib)-1] < 1<<51 {
 		fib = append(fib, fib[len(fib)-1]+fib[len(fib)-2])
 	}
 	pell := []float64{1, 2}
-	for pell[len(pell)-1] < 1<<26 {
+	for pell[len(pell)-1] < 1<<51 {
 		pell = append(pell, 2*pell[len(pell)-1]+pell[len(pell)-2])
 	}
 	return [][]float64{fib[:len(fib)-1], pell[:len(pell)-1]}
@@ -247,15 +248,58 @@ func c10Run(c *engine.Ctx) {
 	for _, seq := range cfSequences() {
 		for k := 2; k+1 < len(seq); k++ {
 			a, b, d := seq[k-1], seq[k], seq[k+1]
-			for _, v := range [][]float64{{0, 0, b, d, a, b}, {0, 0, a, b, b, d}, {a, b, 0, 0, b, d}, {0, 0, 2 * a, 2 * b, a, b}, {1, 0, b + 1, d, a + 1, b}} {
+			for _, v := range [][]float64{{0, 0, b, d, a, b}, {0, 0, a, b, b, d}, {a, b, 0, 0, b, d}, {0, 0, 2 * a, 2 * b, a, b}, {1, 0, b + 1, d, a + 1, b},
+				{1000, -2000, 1000 + a, -2000 + b, 1000 + b, -2000 + d}, {1000 + a, -2000 + b, 1000, -2000, 1000 + b, -2000 + d}, {1000 + a, -2000 + b, 1000 + b, -2000 + d, 1000, -2000},
+				{-a, -b, 0, 0, b, d}, {-a, -b, a, b, b, d}, {d, b, 0, 0, b, a}} {
 				w := make([]ref.F, 6)
 				for i := range v {
 					w[i] = ref.F(v[i])
 				}
 				c10Exec(c, c10Case{Pts: w})
+				c10Exec(c, c10Case{Pts: w, Extra: true})
 			}
 		}
 	}
+	// points of very different magnitude on one line through the origin (exponents from -330 to
+	// 330, every ordinate inside [1e-100,1e100]): exactly collinear, and with one ordinate one or
+	// three ulps off - the deviation is hundreds of binary orders below the leading terms, so any
+	// evaluation that rounds before the final sign (at whatever fixed precision) loses it
+	exps := []int{-330, -300, -200, -100, -53, 0, 53, 100, 200, 250, 300, 330}
+	slopes := []float64{1, 2, 3, 0.5, -1.5}
+	type wjob struct {
+		s      float64
+		e1, e2 int
+	}
+	var wjobs []wjob
+	for _, sl := range slopes {
+		for _, e1 := range exps {
+			for _, e2 := range exps {
+				wjobs = append(wjobs, wjob{sl, e1, e2})
+			}
+		}
+	}
+	c.Parallel(len(wjobs), func(i int) {
+		j := wjobs[i]
+		for _, e3 := range exps {
+			if j.e1 == j.e2 || j.e2 == e3 || j.e1 == e3 {
+				continue
+			}
+			base := []float64{math.Ldexp(1, j.e1), j.s * math.Ldexp(1, j.e1), math.Ldexp(1, j.e2), j.s * math.Ldexp(1, j.e2), math.Ldexp(1, e3), j.s * math.Ldexp(1, e3)}
+			v := make([]ref.F, 6)
+			for k, x := range base {
+				v[k] = ref.F(x)
+			}
+			c10Exec(c, c10Case{Pts: v})
+			c.Count("wide_exponent_triples", 1)
+			for k := 0; k < 6; k++ {
+				for _, d := range []int{-3, -1, 1, 3} {
+					w := append([]ref.F{}, v...)
+					w[k] = ref.F(ulps(float64(w[k]), d))
+					c10Exec(c, c10Case{Pts: w})
+				}
+			}
+		}
+	})
 	if c.Get("exactly_collinear") == 0 || c.Get("non_collinear") == 0 {
 		c.Warn("vacuous: one of the sign classes is empty")
 	}
